@@ -371,4 +371,59 @@ def lastKey (k0 : Key) (u : User) (ops : List Op) : Key :=
     | .set v k' => if v = u then k' else k
     | _ => k) k0
 
+/-! ### The slave record of a master hub, and the slave events endpoint as a whole -/
+
+/-- A master hub: its own password state and the admin hash it holds for its slave
+(`slaves/devices.py: Slave._admin_password_hash`, used both to sign the requests it sends to the slave and to
+verify the slave's device-origin tokens). -/
+structure Hub where
+  dev : Dev
+  slave : Key
+deriving DecidableEq, Repr, Inhabited
+
+inductive HOp
+  | dev (op : Op)
+  /-- a `PATCH /device` carrying `admin_password` (any string, also the empty one) forwarded through
+  `/devices/<name>/forward/device` and answered 2xx by the slave: `Slave.intercept_response` →
+  `set_admin_password`; `k = sha256(password)` -/
+  | slaveSet (k : Key)
+deriving DecidableEq, Repr
+
+def hstep (emp : Key) (h : Hub) : HOp → Hub
+  | .dev op => { h with dev := step emp h.dev op }
+  | .slaveSet k => { h with slave := k }
+
+def hrun (emp : Key) (h : Hub) (ops : List HOp) : Hub := ops.foldl (hstep emp) h
+
+/-- The hash the master must hold for the slave after a history: the last one set through it, else the initial one. -/
+def lastSlaveKey (k0 : Key) (ops : List HOp) : Key :=
+  ops.foldl (fun k op => match op with
+    | .slaveSet k' => k'
+    | _ => k) k0
+
+/-- The own-password operations of a hub history. -/
+def devOps : List HOp → List Op
+  | [] => []
+  | .dev op :: rest => op :: devOps rest
+  | .slaveSet _ :: rest => devOps rest
+
+/-- What `POST /devices/<name>/events` answers, in the order of `post_slave_device_events`:
+authentication first (401), then the body schema, then the polling / listening preconditions (400), then the event
+is handled (204). -/
+inductive EvOutcome
+  | unauthorized | invalidBody | pollingEnabled | listeningEnabled | accepted
+deriving DecidableEq, Repr
+
+def EvOutcome.toString : EvOutcome → String
+  | .unauthorized => "unauthorized" | .invalidBody => "invalid-body" | .pollingEnabled => "polling-enabled"
+  | .listeningEnabled => "listening-enabled" | .accepted => "accepted"
+
+def eventsOutcome (cfg : Cfg) (now : Int) (origin : String) (slaveHash : Key) (polled listened bodyOk : Bool)
+    (hdr : List Nat) (dec : Option Tok) : EvOutcome :=
+  if !deviceAuth cfg now origin slaveHash hdr dec then .unauthorized
+  else if !bodyOk then .invalidBody
+  else if polled then .pollingEnabled
+  else if listened then .listeningEnabled
+  else .accepted
+
 end QtVerif.Auth
